@@ -91,7 +91,7 @@ def cases(tier):
     return cs
 
 
-OPTS = {'quick': dict(max_paths=20000, budget_s=250), 'thorough': dict(max_paths=200000, budget_s=1500)}
+OPTS = {'quick': dict(max_paths=20000, budget_s=900), 'thorough': dict(max_paths=200000, budget_s=1500)}
 BANDS = {'full': (0, 4), 'lower': (0, 1), 'upper': (3, 4)}
 
 
